@@ -15,11 +15,12 @@ open H2V.Lemmas.ConnRecvP (COp)
 /-- **every call of the application on a connection** (polls, window configuration, shutdown, the ping handle):
     `ConnOK` again, and `(streams, codec.w)` moved by a history whose calls satisfy `ConnP`; the only panics the
     connection layer records are the model's fuel markers -/
-theorem cop_step {c : Conn} (hc : ConnOK c) (op : COp) (hop : ∀ o, op ≠ .handle o) : CStep FuelMsg c (op.apply c) := by
+theorem cop_step {c : Conn} (hc : ConnOK c) (op : COp) (hop : ∀ o, op ≠ .handle o)
+    (hv : ∀ size, op = .setTargetWindowSize size → size ≤ 2147483647) : CStep FuelMsg c (op.apply c) := by
   cases op with
   | protoPoll fuel => exact (protoPoll_cs fuel hc).cstep hc
   | clientPoll fuel => exact (clientPoll_cs fuel hc).cstep hc
-  | setTargetWindowSize size => exact (setTargetWindowSize_cs hc.ga size).cstep hc
+  | setTargetWindowSize size => exact (setTargetWindowSize_cs hc.ga size (hv size rfl)).cstep hc
   | setInitialWindowSize size => exact (setInitialWindowSize_cs hc.ga size).cstep hc
   | goAwayGracefully => exact goAwayGracefully_step hc
   | goAwayFromUser e => exact (goAwayFromUser_cs hc.ga e).cstep hc
@@ -36,7 +37,7 @@ theorem ConnOK.handle {c : Conn} (hc : ConnOK c) (s : Streams) (codec : Codec) (
     (hl : (view s).lpi = (view c.streams).lpi) (hr : (view s).rmax = (view c.streams).rmax)
     (he : (view c.streams).connErr.isSome = true → (view s).connErr.isSome = true) (hrd : codec.r = c.codec.r) :
     ConnOK { c with streams := s, codec := codec, cx := cx } :=
-  hc.keep ⟨rfl, hl, hr, he⟩ rfl hrd (.of_eq rfl)
+  hc.keep ⟨rfl, hl, hr, he⟩ rfl hrd (.of_eq rfl rfl)
 
 /-- `ConnP` gives the preconditions of ConnNoPanicPHist (`opPre`) wherever `opPre` covers the operation; the four
     operations it does not cover yet are `recv_push_promise`, `set_target_connection_window`, `poll_complete`,
@@ -70,12 +71,15 @@ theorem handleGoAway_hist {c : Conn} (hi : GoAwayInv c) (r : Reason) (d : Bytes)
     Hist ConnP c.streams (c.handleGoAway r d i).streams := (handleGoAway_cs (X := fun _ => False) hi r d i).histS.toHist
 
 theorem recvSettings_hist {c : Conn} (hi : GoAwayInv c) (ack : Bool) (vals : List (Nat × Nat))
-    (hrem : ack = false → c.settings.remote = none) : Hist ConnP c.streams (c.recvSettings ack vals).1.streams :=
-  (recvSettings_cs (X := fun _ => False) hi ack vals hrem).histS.toHist
+    (hrem : ack = false → c.settings.remote = none) (hv : ack = false → ConnFlowP.SettingsOk vals) :
+    Hist ConnP c.streams (c.recvSettings ack vals).1.streams :=
+  (recvSettings_cs (X := fun _ => False) hi ack vals hrem hv).histS.toHist
 
-/-- `poll_ready` needs no hypothesis at all -/
-theorem pollReady_hist (c : Conn) : Hist ConnP c.streams c.pollReady.1.streams := (pollReady_qs c).1.hist.hist
-theorem settingsPollSend_hist (c : Conn) : Hist ConnP c.streams c.settingsPollSend.1.streams := (settingsPollSend_qs c).hist.hist
+/-- `poll_ready` needs only that the remembered SETTINGS of the peer came through the decoder -/
+theorem pollReady_hist (c : Conn) (hrem : ∀ v, c.settings.remote = some v → ConnFlowP.SettingsOk v) :
+    Hist ConnP c.streams c.pollReady.1.streams := (pollReady_qs c hrem).1.hist.hist
+theorem settingsPollSend_hist (c : Conn) (hrem : ∀ v, c.settings.remote = some v → ConnFlowP.SettingsOk v) :
+    Hist ConnP c.streams c.settingsPollSend.1.streams := (settingsPollSend_qs c hrem).hist.hist
 
 theorem poll2Loop_hist (fuel : Nat) {c : Conn} (hc : ConnOK c) : HistX ConnP FuelMsg c.streams (Conn.poll2Loop fuel c).1.streams :=
   (poll2Loop_cs fuel hc).histS
@@ -86,8 +90,8 @@ theorem protoPoll_hist (fuel : Nat) {c : Conn} (hc : ConnOK c) : HistX ConnP Fue
 theorem clientPoll_hist (fuel : Nat) {c : Conn} (hc : ConnOK c) : HistX ConnP FuelMsg c.streams (Conn.clientPoll fuel c).1.streams :=
   (clientPoll_cs fuel hc).histS
 
-theorem init_histS (g : Conn.Cfg) : Hist ConnP (clientStreams0 g) (Conn.init g).streams := (init_hist g).hist
-theorem initServer_histS (g : Conn.Cfg) (ecp : Bool) (pf : Bytes) :
-    Hist ConnP (serverStreams0 g ecp) (Conn.initServer g ecp pf).streams := (initServer_hist g ecp pf).hist
+theorem init_histS (g : Conn.Cfg) (hg : CwsOK g) : Hist ConnP (clientStreams0 g) (Conn.init g).streams := (init_hist g hg).hist
+theorem initServer_histS (g : Conn.Cfg) (ecp : Bool) (pf : Bytes) (hg : CwsOK g) :
+    Hist ConnP (serverStreams0 g ecp) (Conn.initServer g ecp pf).streams := (initServer_hist g ecp pf hg).hist
 
 end H2V.Lemmas.ConnNoPanicP
